@@ -47,6 +47,9 @@ ASSUMPTIONS = [
     'required there',
     'with assume_children nothing is asserted about links of leaves',
     'truncated or corrupted cookies are not injected',
+    'every response is expected to write the tree-s cookie (the statement '
+    'speaks of "the state cookie written"): a response that leaves it out '
+    'is reported (cookie:not-written), also when the state did not change',
 ]
 
 ALPH = {
